@@ -268,11 +268,11 @@ func c08Scripts(types []int) []string {
 		"new:1 nw:1:2:1001 z start pf:63:0:1:0 w:1 n:1 ps:100:0:110 w:2 r:1 close pc rc",
 		// Shutdown is a caller like any other: issued before Connect / during the initial read / while a negotiation message is
 		// outstanding, its CloseConnection reaches the wire only after negotiation (here it is answered and ends the session)
-		"new:1 shutdown:1 z start z n:0 pf:63:0:1:0 w:1 n:1 ps:100:0:110 w:2 ps:4:@1:0 r:1 rc",
-		"new:1 start z shutdown:1 z pf:63:0:1:0 w:1 n:1 ps:56:0:18 w:2 n:2 ps:57:1:0 w:3 ps:4:@1:0 r:1 rc",
-		"new:1 start pf:63:0:1:0 w:1 shutdown:1 z n:1 ps:56:0:18 w:2 n:2 ps:57:1:0 w:3 ps:4:@1:0 r:1 rc",
-		"new:1 start pf:63:0:1:0 w:1 ps:56:0:18 w:2 shutdown:1 z n:2 ps:57:1:0 w:3 ps:4:@1:0 r:1 rc",
-		"new:0 shutdown:1 z n:0 start z n:0 pf:63:0:1:0 w:1 ps:4:@1:0 r:1 rc",
+		"new:1 shutdown:1 z start z n:0 pf:63:0:1:0 w:1 n:1 ps:100:0:110 w:2 ps:4:@1:0 r:1 pc rc",
+		"new:1 start z shutdown:1 z pf:63:0:1:0 w:1 n:1 ps:56:0:18 w:2 n:2 ps:57:1:0 w:3 ps:4:@1:0 r:1 pc rc",
+		"new:1 start pf:63:0:1:0 w:1 shutdown:1 z n:1 ps:56:0:18 w:2 n:2 ps:57:1:0 w:3 ps:4:@1:0 r:1 pc rc",
+		"new:1 start pf:63:0:1:0 w:1 ps:56:0:18 w:2 shutdown:1 z n:2 ps:57:1:0 w:3 ps:4:@1:0 r:1 pc rc",
+		"new:0 shutdown:1 z n:0 start z n:0 pf:63:0:1:0 w:1 ps:4:@1:0 r:1 pc rc",
 		// negotiation fails: wrong reply type, error status, reader rejects SetProtocolVersion, connection ends, local close
 		"new:1 call:1:2:1001 z start pf:63:0:1:0 w:1 call:2:2:1002 z n:1 ps:12:0:5 rc r:1 r:2",
 		"new:1 call:1:2:1001 z start pf:63:0:1:0 w:1 ps:100:0:100 rc r:1",
